@@ -1311,8 +1311,17 @@ def gen_tuple_program(x, y):
     m.append("  " + show(x, "pq.first", "t10") + " " + show(y, "pq.second", "t11"))
     m.append("  " + show(y, "qp.first", "t12") + " " + show(x, "qp.second", "t13"))
     m.append("  println(bx.tag, by.tag);")
+    # tuples that differ in ONE position only (a cache key / instance key that ignores an argument): f<X,Y> vs f<X,Z>, f<Y,X> vs f<Z,X>
+    z = [t for t in ALL_TYPES if t not in (x, y)][(ALL_TYPES.index(x) + ALL_TYPES.index(y)) % (len(ALL_TYPES) - 2)]
+    m.append("  " + show(y, "second<%s, %s>(%s, %s)" % (x, y, val(x, 1), val(y, 2)), "t14"))
+    m.append("  " + show(z, "second<%s, %s>(%s, %s)" % (x, z, val(x, 1), val(z, 2)), "t15"))
+    m.append("  " + show(y, "first<%s, %s>(%s, %s)" % (y, x, val(y, 3), val(x, 0)), "t16"))
+    m.append("  " + show(z, "first<%s, %s>(%s, %s)" % (z, x, val(z, 3), val(x, 0)), "t17"))
+    m.append("  " + show(y, "second<%s, %s>(%s, %s)" % (x, y, val(x, 0), val(y, 3)), "t18"))
+    m.append("  Pair<%s, %s> pz; pz.first = %s; pz.second = %s;" % (x, z, val(x, 2), val(z, 1)))
+    m.append("  " + show(x, "pz.first", "t19") + " " + show(z, "pz.second", "t20") + " " + show(y, "pq.second", "t21"))
     pr.main = "void main() {\n" + "\n".join(m) + "\n}\n"
-    pr.meta = {"family": "tuple-pair", "kinds": ["f<X,Y> vs f<Y,X>", "Box<X> vs Box<Y>", "nth-use"], "fns": list(pr.fn_order), "pair": [x, y]}
+    pr.meta = {"family": "tuple-pair", "kinds": ["f<X,Y> vs f<Y,X>", "f<X,Y> vs f<X,Z>", "Box<X> vs Box<Y>", "nth-use"], "fns": list(pr.fn_order), "pair": [x, y]}
     return pr
 
 
@@ -1873,8 +1882,8 @@ def _run_body(rep, seed, tier, quick, lap, cq, proof_broken, new_missing, pinned
                       ("TypeContext::resolve_complex_type (ast.h) and the proved model disagree on a %s request (%d tokens)%s" if kind == "resolve" else
                        "generic_instantiation.cpp and the proved model disagree on a %s request (%d tokens)%s") % (
                           kind, len(small.split()),
-                          ("; " + key_collision + " (instances would be shared if the cache in call_impl.cpp were switched on; it is off, "
-                           "so no program shows it)") if kind == "key" and key_collision else ""),
+                          ("; " + key_collision + " (instances are shared as soon as the cache in call_impl.cpp is switched on; while it is "
+                           "off no program shows it)") if kind == "key" and key_collision else ""),
                       no_failing_input=True)
     rep.coverage["tree_disagreements"] = len(bad_tree)
     lap("A synthetic trees")
